@@ -27,6 +27,12 @@ CLAIMED = {
                      "snapshot/clear/call, self-removing teardown) gives every observer exactly the events issued while it was registered and holds exactly the registered observers; "
                      "C10_replay_history_complete / C10_behavior_latest: the history cells always hold what was pushed. Partial: the hand-over of Behavior/Replay/AsyncSubject to a late "
                      "joiner is proved at the level of the history cells and otherwise decided by the reference-machine oracle applied to the implementation on all short histories."),
+    "C03": dict(engine="coq-seq", design="DESIGN.md 6 C03",
+                technique="machine-checked proof in Coq (per-operator induction over arbitrary interleavings of the sources' events, with the StreamController bookkeeping invariant) + three-way correspondence impl = Seq = MLoc and the specification oracle on every implementation observation",
+                text="Theorems C03_merge / C03_zip / C03_amb (any number of sources) and C03_take_until / C03_skip_until / C03_sample: for EVERY sequential interleaving of the sources' events (unbounded, ill-formed sources included) "
+                     "the operator's handler table delivers exactly what its ReactiveX definition assigns to that interleaving. Partial: concat, flat_map, switch_on_next, on_error_resume_next, ready_set_go and nestings with C02 operators "
+                     "are decided by the correspondence impl = sequential machine (no operator theorem); combine_latest (D9) and sequence_equal (D10) are recorded known findings with witnesses C03_known_D9_witness / C03_known_D10_witness. "
+                     "Tie: all interleavings of two hot sources up to length 4 (5), random ones for 3-4 sources, cold sources subscribed in the crate's order."),
     "C05": dict(engine="coq-seq", design="DESIGN.md 6 C05",
                 technique="machine-checked proof in Coq (every step of the worklist machine decomposed into basic moves; frozen-log invariant preserved by every move, hence by every run; gate invariant for all interleavings) + differential correspondence (sequential) and controlled schedules (concurrent)",
                 text="Theorems C05_unsubscribe_closes / C05_unsubscribe_freezes / C05_nothing_after_unsubscribe: on the sequential machine, for every pipeline over the whole catalogue, every scenario, "
